@@ -74,11 +74,16 @@ def run(tier, seed, ev):
         rc_r = mprop.run_m(PROP, tier, seed, ev, ex, [("recovery (replay_and_prepare): next above everything seen, own segment created+synced, no existing segment truncated",
                                                        "replay_prepare", lambda ex: R.ob_prepare(ex))],
                            [("src/lib.rs", "replay_api.rs", "verif_replay_api")], "replay_recovery_crash")
+        import obl_init as I
+        rc_r = tcommon.best(rc_r, mprop.run_m(PROP, tier, seed, ev, ex, [
+            ("first-time directory pre-creation is restartable (a kill inside the loop, then a second initialisation)", "precreate_restart",
+             lambda ex: I.ob_precreate_restart(ex, 2 if tier == "quick" else 3))],
+            [("src/lib.rs", "replay_open.rs", "verif_replay_open")], "replay_precreate_restart"))
         rc_r = tcommon.best(rc_r, tcommon.crash_image_run(PROP, tier, seed, ev, ex, "kill"))
         rc_r = tcommon.best(rc_r, tcommon.recovery_image_run(PROP, tier, seed, ev, ex))
     rc_m = tcommon.best(rc_m, rc_r)
     ev.functions = ev.functions + KH_LIST[0].functions
     ev.bounds["write_entry payload"] = KH_LIST[0].bounds
-    ev.outside = list(ev.outside) + ["the 65 536-directory pre-creation loop of first-time initialisation (pre_create_all_cas_directories) is ONE abstract, "
-                                     "idempotent effect here: that a crash inside the loop followed by a second initialisation leaves a complete tree is not decided"]
+    ev.bounds["directory pre-creation"] = ("pre_create_all_cas_directories run from its MIR with the fan-out 256 replaced by 2 (quick) / 3 (thorough) over a "
+                                           "directory-set model: any initial subset of buckets and leaves (a leaf needs its bucket)")
     return tcommon.best(rc_k, rc_m)
